@@ -171,6 +171,9 @@ func SelfTest() error {
 type Family struct {
 	Name string
 	Gen  func(k int) []byte
+	// MaxK, if non-zero, is the largest k this family is used with (members
+	// whose size grows quadratically in k).
+	MaxK int
 }
 
 func rep(s string, k int) []byte {
@@ -266,7 +269,7 @@ func Families() []Family {
 	pair("<![CDATA[", "", "")
 	pair("<?", "", "")
 	// Growing depth: nested lists and quotes spelled over several lines.
-	fs = append(fs, Family{Name: "nested bullet lists, depth k", Gen: func(k int) []byte {
+	fs = append(fs, Family{Name: "nested bullet lists, depth k", MaxK: 192, Gen: func(k int) []byte {
 		var out []byte
 		for i := 0; i < k; i++ {
 			out = append(out, rep("  ", i)...)
